@@ -37,6 +37,16 @@ def explicit_and_secrecy(ctx):
         St.count(("default",), True, {"default_salt_len": len(s1)})
         if len(s1) < 8 or s1 != s2:
             ctx.oracle_fail(f"default salt not stable / too short: {s1.hex()} vs {s2.hex()}", {}, "default")
+        # every way of leaving the salt unset must end up with that same default salt, never with the empty one
+        from syndiffix.common import SuppressionParams, FlatteningInterval
+        unset = {"params-without-salt": AnonymizationParams(layer_noise_sd=0.5),
+                 "params-with-empty-salt": AnonymizationParams(salt=b""),
+                 "params-with-other-fields": AnonymizationParams(low_count_params=SuppressionParams(low_threshold=2), outlier_count=FlatteningInterval(1, 2))}
+        for how, ap_ in unset.items():
+            s3 = Synthesizer(df, anonymization_params=ap_).salt
+            St.count(("unset", how), True, {"unset_salt_via": how})
+            if s3 != s1:
+                ctx.oracle_fail(f"salt left unset via {how}: Synthesizer.salt = {s3.hex() or '<empty>'} instead of the default salt", {"how": how}, "default-unset")
         # secrecy scan
         out = Synthesizer(df).sample()
         blobdir = tempfile.mkdtemp(prefix="sdxblob")
